@@ -47,6 +47,10 @@ def run_shard(ctx):
     qmgen.drive_histories(ctx, OWN, qmgen.restart_race_history(), ctx.n(600, 10000), nontrivial, salt=8)
     qmgen.drive_histories(ctx, OWN, qmgen.saturated_pool_history(), ctx.n(600, 10000), nontrivial, salt=9)
     qmgen.drive_histories(ctx, OWN, qmgen.announce_window_history(), ctx.n(800, 12000), nontrivial, salt=11)
+    # a message the queue hears about twice must still reach its disposition (the scheduling details are C12's)
+    qmgen.drive_histories(ctx, OWN, qmgen.double_report_history(), ctx.n(400, 8000), nontrivial, salt=13)
+    qmgen.drive_histories(ctx, OWN, qmgen.enqueue_vs_load_history(), ctx.n(400, 8000), nontrivial, salt=14)
+    qmgen.drive_histories(ctx, OWN, qmgen.own_write_announced_history(), ctx.n(400, 8000), nontrivial, salt=16)
 
 
 def replay(case):
